@@ -130,4 +130,215 @@ theorem execEvs_same (d : Dfsr) (st : Store) (evs : List Ev) :
       rw [hrb]
       exact ih ra rb r1' hsb h
 
+
+/-! ### single X events -/
+
+theorem exec_indr (d : Dfsr) (p : Plan) (w : Nat) (hi : IndCtx d p w) (st : Store) (r : Run) (t : Nat) (bs : List Nat)
+    (fr : Nat) (x : Int) (hcur : r.cur = some (t, bs)) (hlen : r.ofs + w ≤ bs.length)
+    (hx : xDecode d.depthRc (beWord ((bs.drop r.ofs).take w)) = .ok x) (hfr : fr < r.fs.xvec.length) :
+    ∃ ops, execEv d st r ⟨.read, w, some fr, none, none⟩
+      = .ok ⟨r.cur, r.ofs + w, { r.fs with xvec := r.fs.xvec.set fr (some x) }, ops⟩ := by
+  have hl : ((bs.drop r.ofs).take w).length = w := by rw [List.length_take, List.length_drop]; omega
+  exact exec_read d st r t bs w fr none none _ hcur hlen (setFrameBytes_indr d p w hi r.fs _ fr x hl hx hfr)
+
+theorem exec_extrap (d : Dfsr) (st : Store) (r : Run) (n fr : Nat) (cf ct : Option Nat) (x sp : Int)
+    (hx : r.fs.xvec[if fr = 0 then 0 else fr - 1]? = some (some x)) (hsp : r.fs.frameSpacing = some sp)
+    (hfr : fr < r.fs.xvec.length) :
+    execEv d st r ⟨.extrap, n, some fr, cf, ct⟩
+      = .ok { r with fs := { r.fs with xvec := r.fs.xvec.set fr (some (x + (n : Int) * sp)) } } := by
+  unfold execEv
+  simp only [hx, hsp, hfr, if_true]
+
+/-- the implied X values following `x`: `x + st·sp, x + 2·st·sp, …` (`m` of them) -/
+def xsFrom (x : Int) (st : Nat) (sp : Int) : Nat → List Int
+  | 0 => []
+  | m + 1 => (x + (st : Int) * sp) :: xsFrom (x + (st : Int) * sp) st sp m
+
+/-- write consecutive X values from index `i` on -/
+def setVals (v : List (Option Int)) : Nat → List Int → List (Option Int)
+  | _, [] => v
+  | i, x :: xs => setVals (v.set i (some x)) (i + 1) xs
+
+theorem setVals_length (v : List (Option Int)) (i : Nat) (xs : List Int) : (setVals v i xs).length = v.length := by
+  induction xs generalizing v i with
+  | nil => rfl
+  | cons x xs ih => simp [setVals, ih]
+
+theorem xsFrom_length (x : Int) (st : Nat) (sp : Int) (m : Nat) : (xsFrom x st sp m).length = m := by
+  induction m generalizing x with
+  | zero => rfl
+  | succ m ih => simp [xsFrom, ih]
+
+
+/-- **Executing the renumbered frame loop of one record with an indirect word** (any channel subset): every frame's
+events succeed and leave X untouched; the EXTRAPOLATE event behind each inter-frame move sets the X of the next loaded
+row to the previous one plus `step·spacing`. -/
+theorem frameLoop_exec_ind (d : Dfsr) (st : Store) (t : Nat) (bs : List Nat) (n stop step : Nat) (buf : List Nat)
+    (frInt : Nat) (p : Plan) (w : Nat) (sp : Int) (c0 : Nat) (rest : List Nat) (pre post : Option Ev) (fevts : List Ev)
+    (hi : IndCtx d p w) (hstep : 0 < step)
+    (hltc : ∀ c ∈ c0 :: rest, c < d.chans.length) (hsorted : (c0 :: rest).Pairwise (· < ·))
+    (hbs : bs.length = 2 + w + n * p.frameSize) (hstop : stop ≤ n)
+    (hret : retFrameEvents p (c0 :: rest) = (pre, fevts, post))
+    (hinc : ∀ (a b x y : Nat), a < b → buf[a]? = some x → buf[b]? = some y → x < y) :
+    ∀ (fuel g j kk : Nat) (r : Run) (xg : Int), g < stop → stop - g ≤ fuel →
+      (∀ i, buf[j + i]? = (rangeList g stop step)[i]?) → (kk = j ∨ kk + 1 = j) →
+      r.cur = some (t, bs) → r.ofs = 2 + w + g * p.frameSize + p.skipToChStart c0 → r.fs.chIdx = c0 :: rest →
+      (∀ row ∈ r.fs.frames, row.length = sumN ((selChans d (c0 :: rest)).map Chan.numValues)) →
+      frInt + j + rangeLen g stop step ≤ r.fs.frames.length → r.fs.xvec.length = r.fs.frames.length →
+      r.fs.frameSpacing = some sp → r.fs.xvec[frInt + j]? = some (some xg) →
+      ∃ r', execEvs d st (renumber buf frInt
+          (frameLoop p fevts post (mergedPostFramePre p pre post step) stop step fuel g none) kk) r = .ok r' ∧
+        r'.cur = r.cur ∧ r'.fs.chIdx = r.fs.chIdx ∧ r'.fs.frameSpacing = r.fs.frameSpacing ∧
+        r'.fs.frames.length = r.fs.frames.length ∧
+        (∀ row ∈ r'.fs.frames, row.length = sumN ((selChans d (c0 :: rest)).map Chan.numValues)) ∧
+        r'.fs.xvec = setVals r.fs.xvec (frInt + j + 1) (xsFrom xg step sp (rangeLen g stop step - 1)) := by
+  have hp : p.sizes = d.chans.map Chan.size := by rw [hi.hp]
+  have hpi : p.indr = w := by rw [hi.hp]
+  have hok := hi.hok
+  have hwpos := hi.hwpos
+  obtain ⟨_, _, hhead, hpre, hpost⟩ := retFrameEvents_spec p c0 rest hsorted 0 pre fevts post hret
+  have hfne : fevts ≠ [] := by intro h; rw [h] at hhead; simp at hhead
+  have hL := lastP1_pos rest c0
+  have hfs : p.skipToChStart (lastP1 rest (c0 + 1)) + p.skipToFrameEnd (lastP1 rest (c0 + 1) - 1) = p.frameSize := by
+    have := skip_end p (lastP1 rest (c0 + 1) - 1)
+    rwa [Nat.sub_add_cancel hL] at this
+  have hpostS : sizIs post (p.skipToFrameEnd (lastP1 rest (c0 + 1) - 1)) := by
+    unfold sizIs; unfold skipIs at hpost
+    cases post with
+    | none => exact hpost
+    | some e => exact hpost.2
+  have hpreS : sizIs pre (p.skipToChStart c0) := by
+    unfold sizIs; unfold preIs at hpre
+    cases pre with
+    | none => simp only at hpre; subst hpre; exact skip_zero p
+    | some e => exact hpre.2.1
+  have hmf := merged_form p pre post step _ _ hpreS hpostS
+  intro fuel
+  induction fuel with
+  | zero => intro g j kk r xg hg hfuel; omega
+  | succ fuel ih =>
+    intro g j kk r xg hg hfuel hb hkk hcur hofs hch hrows hN hxl hsp hxg
+    have hbj : buf[j]? = some g := by have := hb 0; rwa [rangeList_getElem_zero g stop step hg hstep, Nat.add_zero] at this
+    have hlenN := rangeLen_lt g stop step hg hstep
+    have hltN : frInt + j < r.fs.frames.length := by omega
+    have hg1 : (g + 1) * p.frameSize ≤ n * p.frameSize := Nat.mul_le_mul_right _ (by omega)
+    have hg1' : (g + 1) * p.frameSize = g * p.frameSize + p.frameSize := by ring
+    -- the events of frame g
+    have hctx : FrameCtx d p r t bs (2 + w + g * p.frameSize) (frInt + j) (c0 :: rest) r.fs.frames[frInt + j] :=
+      ⟨hp, hok, hcur, by omega, hch, hltc, List.getElem?_eq_getElem hltN, hrows _ (List.getElem_mem hltN)⟩
+    obtain ⟨r1, hex1, hcur1, hofs1, hfs1⟩ := frameEvents_exec d p st r t bs (2 + w + g * p.frameSize) (frInt + j) c0 rest _ hctx
+      hsorted hofs pre post fevts hret
+    have hblock := renumber_block buf frInt g j hbj hinc (fevts.map (fun e => { e with fr := some g })) kk hkk
+      (by simpa using hfne) (by intro e he; obtain ⟨x, _, rfl⟩ := List.mem_map.1 he; rfl)
+    rw [withFr_map] at hblock
+    have hrows1 : ∀ row ∈ r1.fs.frames, row.length = sumN ((selChans d (c0 :: rest)).map Chan.numValues) := by
+      intro row' hm
+      rw [hfs1] at hm
+      rcases List.mem_or_eq_of_mem_set hm with h | h
+      · exact hrows _ h
+      · rw [h]; simp [rowSel_length]
+    have hlen1 : r1.fs.frames.length = r.fs.frames.length := by rw [hfs1]; simp
+    have hch1 : r1.fs.chIdx = c0 :: rest := by rw [hfs1]; exact hch
+    have hx1 : r1.fs.xvec = r.fs.xvec := by rw [hfs1]
+    have hsp1 : r1.fs.frameSpacing = r.fs.frameSpacing := by rw [hfs1]
+    have hindr : p.indr > 0 := by omega
+    simp only [frameLoop, hg, if_true, hindr]
+    cases hem : emitFrame g fevts none with
+    | mk evs pend' =>
+      have hevs : evs = fevts.map (fun e => { e with fr := some g }) := by
+        have := emitFrame_none_eq g fevts; rw [hem] at this; exact this
+      subst hevs
+      have hpn : pend' = none := by have := (emitFrame_none g fevts 0).1; rw [hem] at this; exact this
+      subst hpn
+      simp only
+      by_cases hlast : g + step ≥ stop
+      · simp only [hlast, if_true]
+        have hrl0 : rangeLen g stop step - 1 = 0 := by
+          have : rangeLen (g + step) stop step = 0 := by simp [rangeLen]; omega
+          omega
+        rw [renumber_append, hblock.1, hblock.2, execEvs_append, hex1, hrl0]
+        simp only [xsFrom, setVals]
+        cases post with
+        | none => exact ⟨r1, by simp [evAt, renumber, execEvs], hcur1, by rw [hch1, hch], hsp1, hlen1, hrows1, hx1⟩
+        | some e =>
+          unfold skipIs at hpost
+          simp only at hpost
+          obtain ⟨ops, hsk⟩ := exec_skip' d st r1 t bs e.siz (some (frInt + j)) e.cf e.ct (by rw [hcur1]; exact hcur)
+            (by rw [hofs1, hpost.2]; omega)
+          have hst : renumStep buf j { e with fr := some (g + step - step) } = j := by
+            have := (renumber_block buf frInt g j hbj hinc [{ e with fr := some g }] j (Or.inl rfl) (by simp) (by simp)).2
+            simpa [renumK, Nat.add_sub_cancel] using this
+          refine ⟨⟨r1.cur, r1.ofs + e.siz, r1.fs, ops⟩, ?_, hcur1, by rw [hch1, hch], hsp1, hlen1, hrows1, hx1⟩
+          simp only [evAt, renumber_cons, hst, renumber, execEvs]
+          have : ({ ty := e.ty, siz := e.siz, fr := some (frInt + j), cf := e.cf, ct := e.ct } : Ev)
+              = ⟨.skip, e.siz, some (frInt + j), e.cf, e.ct⟩ := by rw [hpost.1]
+          rw [this, hsk]
+      · simp only [hlast, if_false]
+        have hgs : g + step < stop := by omega
+        have hmul : (g + step) * p.frameSize = g * p.frameSize + p.frameSize + (step - 1) * p.frameSize := by
+          obtain ⟨s', rfl⟩ : ∃ s', step = s' + 1 := ⟨step - 1, by omega⟩
+          simp only [Nat.add_sub_cancel]; ring
+        have hle2 := skip_le_frame p c0
+        have hb1 : buf[j + 1]? = some (g + step) := by
+          have := hb 1
+          rwa [rangeList_getElem_succ g stop step 0 hg hstep, rangeList_getElem_zero _ _ _ hgs hstep] at this
+        have hb' : ∀ i, buf[j + 1 + i]? = (rangeList (g + step) stop step)[i]? := by
+          intro i
+          have := hb (i + 1)
+          rw [rangeList_getElem_succ g stop step i hg hstep] at this
+          rw [← this]; congr 1; omega
+        have hlen2 := rangeLen_lt (g + step) stop step hgs hstep
+        have hN1 : frInt + (j + 1) + rangeLen (g + step) stop step ≤ r1.fs.frames.length := by rw [hlen1]; omega
+        have hgs2 : (g + step + 1) * p.frameSize ≤ n * p.frameSize := Nat.mul_le_mul_right _ (by omega)
+        have hgs2' : (g + step + 1) * p.frameSize = (g + step) * p.frameSize + p.frameSize := by ring
+        have hrlm : rangeLen g stop step - 1 = (rangeLen (g + step) stop step - 1) + 1 := by omega
+        -- the move to the next frame and its extrapolation: a block of events labelled g + step
+        have hmove : ∃ mv, evAt (mergedPostFramePre p pre post step) (g + step) ++ [(⟨.extrap, step, some (g + step), none, none⟩ : Ev)] = mv ∧
+            mv ≠ [] ∧ (∀ e ∈ mv, e.fr = some (g + step)) ∧
+            ∃ r2, execEvs d st (withFr (frInt + (j + 1)) mv) r1 = .ok r2 ∧ r2.cur = r1.cur ∧
+              r2.ofs = 2 + w + (g + step) * p.frameSize + p.skipToChStart c0 ∧
+              r2.fs = { r1.fs with xvec := r1.fs.xvec.set (frInt + (j + 1)) (some (xg + (step : Int) * sp)) } := by
+          refine ⟨_, rfl, by simp, ?_, ?_⟩
+          · intro e he
+            rcases List.mem_append.1 he with h | h
+            · cases hm : mergedPostFramePre p pre post step with
+              | none => rw [hm] at h; simp [evAt] at h
+              | some x => rw [hm] at h; simp [evAt] at h; subst h; rfl
+            · simp at h; subst h; rfl
+          · have hxsrc : r1.fs.xvec[if frInt + (j + 1) = 0 then 0 else frInt + (j + 1) - 1]? = some (some xg) := by
+              have : ¬ frInt + (j + 1) = 0 := by omega
+              simp only [this, if_false]
+              rw [hx1, show frInt + (j + 1) - 1 = frInt + j by omega]; exact hxg
+            rcases hmf with ⟨hnone, hz⟩ | ⟨cf, ct, hsome⟩
+            · rw [hnone]
+              simp only [evAt, List.nil_append, withFr, List.map_cons, List.map_nil, execEvs]
+              rw [exec_extrap d st r1 step (frInt + (j + 1)) none none xg sp hxsrc (by rw [hsp1]; exact hsp) (by rw [hx1, hxl]; omega)]
+              exact ⟨_, rfl, rfl, by simp only; rw [hofs1]; omega, rfl⟩
+            · rw [hsome]
+              obtain ⟨ops, hsk⟩ := exec_skip' d st r1 t bs ((step - 1) * p.frameSize + p.skipToFrameEnd (lastP1 rest (c0 + 1) - 1) + p.skipToChStart c0)
+                (some (frInt + (j + 1))) cf ct (by rw [hcur1]; exact hcur) (by rw [hofs1]; omega)
+              have hext := exec_extrap d st ⟨r1.cur, r1.ofs + ((step - 1) * p.frameSize + p.skipToFrameEnd (lastP1 rest (c0 + 1) - 1) + p.skipToChStart c0), r1.fs, ops⟩
+                step (frInt + (j + 1)) none none xg sp hxsrc (by rw [hsp1]; exact hsp) (by rw [hx1, hxl]; omega)
+              simp only [evAt, List.cons_append, List.nil_append, withFr, List.map_cons, List.map_nil, execEvs, hsk, hext]
+              exact ⟨_, rfl, rfl, by simp only; rw [hofs1]; omega, rfl⟩
+        obtain ⟨mv, hmv, hmvne, hmvfr, r2, hex2, hcur2, hofs2, hfs2⟩ := hmove
+        have hblock2 := renumber_block buf frInt (g + step) (j + 1) hb1 hinc mv j (Or.inr rfl) hmvne hmvfr
+        have hxl2 : r2.fs.xvec.length = r2.fs.frames.length := by rw [hfs2]; simp only [List.length_set]; rw [hx1, hxl, hlen1]
+        obtain ⟨r', hex, hc', hch', hsp', hlen', hrows', hxv'⟩ := ih (g + step) (j + 1) (j + 1) r2 (xg + (step : Int) * sp)
+          hgs (by omega) hb' (Or.inl rfl) (by rw [hcur2, hcur1]; exact hcur) hofs2
+          (by rw [hfs2]; exact hch1) (by rw [hfs2]; exact hrows1) (by rw [hfs2]; exact hN1) hxl2
+          (by rw [hfs2]; simp only; rw [hsp1]; exact hsp)
+          (by rw [hfs2]; simp only; rw [List.getElem?_set]; simp; rw [hx1, hxl]; omega)
+        refine ⟨r', ?_, by rw [hc', hcur2, hcur1], by rw [hch', hfs2]; simp only; rw [hch1, hch], ?_, ?_, hrows', ?_⟩
+        · rw [List.append_assoc, List.append_assoc, renumber_append, hblock.1, hblock.2]
+          simp only [execEvs_append, hex1]
+          rw [← List.append_assoc, hmv, renumber_append, hblock2.1, hblock2.2]
+          simp only [execEvs_append, hex2]
+          exact hex
+        · rw [hsp', hfs2]; simp only; exact hsp1
+        · rw [hlen', hfs2]; simp only; exact hlen1
+        · rw [hxv', hfs2, hrlm]
+          simp only [xsFrom, setVals, hx1]
+          rw [show frInt + (j + 1) + 1 = frInt + j + 1 + 1 by omega, show frInt + (j + 1) = frInt + j + 1 by omega]
+
 end TD.C06
